@@ -63,6 +63,12 @@ def reconn_scenarios(tier, rng):
     for j in range(2):
         out.append(S("ka-traffic%d" % j, [P(1)], ["conn"], [], opts={"pingMs": 20, "connTimeoutMs": 150, "quietMs": 300, "hammerPub": 1, "hammerSleepUs": 2000, "deadlineMs": 1500}))
         out.append(S("ka-traffs%d" % j, [P(1)], ["conn"], [{"p": "PINGREQ", "n": 3, "o": "dropAck"}], opts={"pingMs": 20, "connTimeoutMs": 100, "quietMs": 300, "hammerPub": 1, "hammerSleepUs": 2000, "deadlineMs": 1500}))
+    # a burst of inbound messages for a slow handler behind ServeAsync: the reader goes on reading, the PINGRESPs of a
+    # responsive broker are seen in time
+    for j, nmsg in enumerate((40, 80)):
+        sc = S("ka-async%d" % j, [{"k": "handle", "h": 1}, P(1)], ["pre", "conn"], [], inbound=[{"g": 1, "after": 0, "q": 0, "tag": 1000 + k} for k in range(nmsg)],
+               opts={"pingMs": 30, "connTimeoutMs": 120, "quietMs": 400, "asyncHandlerMs": 500, "deadlineMs": 3000})
+        out.append(sc)
     # a very prompt peer: the PINGRESP has been read and dispatched before Transport.Write of the PINGREQ returns
     for j in range(2 if tier == "quick" else 10):
         out.append(S("ka-prompt%d" % j, [P(1)], ["conn"], [], opts=dict(opts, pingMs=8, promptAcks=True, quietMs=200)))
